@@ -14,12 +14,8 @@ open PF
 /-- `asin` returns a well-formed value on every argument -/
 theorem asin_WF (x : TwoFloat) : (TwoFloat.asin x).WF := by
   unfold TwoFloat.asin
-  dsimp only
-  split_ifs
-  · exact PF.NAN_WF
-  · exact PF.restricted_asin_WF _
-  · exact PF.sub_tt_WF _ _
-  · exact PF.neg_WF (PF.sub_tt_WF _ _)
+  refine ite_WF _ PF.NAN_WF (ite_WF _ (PF.restricted_asin_WF _) ?_)
+  exact ite_WF _ (PF.sub_tt_WF _ _) (PF.neg_WF (PF.sub_tt_WF _ _))
 
 theorem asin_pf (x : TwoFloat) (hw : x.WF) : TwoFloat.asin.pf x = true := PF.is_valid_pf hw
 
@@ -41,17 +37,14 @@ theorem atan2_pf (y x : TwoFloat) : TwoFloat.atan2.pf y x = true := by
 /-- `atan` returns a well-formed value on every argument (used by callers that test the result) -/
 theorem atan_WF (x : TwoFloat) : (TwoFloat.atan x).WF := by
   unfold TwoFloat.atan
-  dsimp only
-  split_ifs
-  · exact PF.NAN_WF
-  · exact PF.FRAC_PI_2_WF
-  · exact PF.neg_WF PF.FRAC_PI_2_WF
-  · exact PF.restricted_atan_WF _
-  all_goals first
-    | exact PF.add_tt_WF _ _
-    | exact PF.sub_tt_WF _ _
-    | exact PF.neg_WF (PF.add_tt_WF _ _)
-    | exact PF.neg_WF (PF.sub_tt_WF _ _)
+  refine ite_WF _ PF.NAN_WF (ite_WF _ (ite_WF _ PF.FRAC_PI_2_WF (PF.neg_WF PF.FRAC_PI_2_WF)) ?_)
+  refine ite_WF _ (PF.restricted_atan_WF _) ?_
+  have hr : ∀ r : TwoFloat, r.WF →
+      (if TwoFloat.is_sign_positive x then r else arithmetic.impl_Neg_for_TwoFloat.neg r).WF :=
+    fun r hr => ite_WF _ hr (PF.neg_WF hr)
+  apply hr
+  exact ite_WF _ (PF.add_tt_WF _ _)
+    (ite_WF _ (PF.add_tt_WF _ _) (ite_WF _ (PF.add_tt_WF _ _) (PF.sub_tt_WF _ _)))
 
 /-- the trait entry points (`num_traits::Float`) -/
 theorem Float_asin_pf (x : TwoFloat) (hw : x.WF) : num_integration.impl_Float_for_TwoFloat.asin.pf x = true :=
